@@ -78,6 +78,7 @@ var c14TreeCfg = h.TreeCfg{
 	MaxEntries: 8, MaxDepth: 3, Names: []string{"a", "b", "c", "l", "loop", "d"},
 	Kinds:      []h.Kind{h.KFile, h.KFile, h.KSymlink, h.KSymlink, h.KSymlink, h.KFifo},
 	SymTargets: c14Targets,
+	Hardlinks:  true,
 }
 
 func genC14Arg(t *rapid.T, tr *h.Tree, label string) string {
@@ -149,6 +150,38 @@ func genC14(t *rapid.T) *c14Case {
 		c.SrcArg, c.DstArg = "/", "/"
 		c.Opts.Wildcards = false
 	}
+	// steered scenario: several wildcard matches merged into one destination, where a
+	// later match replaces (always-replace) a directory written by an earlier one with
+	// an out-pointing symlink and then brings a hard link to a file the earlier match
+	// put below that directory
+	if rapid.IntRange(0, 5).Draw(t, "stalelink") == 0 {
+		d := rapid.SampledFrom([]string{"a", "b", "d"}).Draw(t, "sl.d")
+		f := rapid.SampledFrom([]string{"a", "c", "inner"}).Draw(t, "sl.f")
+		g := rapid.SampledFrom([]string{"l", "c", "zz"}).Draw(t, "sl.g")
+		tg := rapid.SampledFrom([]string{"/outside/dir", "../outside/dir", "../../outside/dir"}).Draw(t, "sl.target")
+		src := &h.Tree{Nodes: []h.Node{
+			{Path: "m1", Kind: h.KDir, Perm: 0o755}, {Path: "m1/" + d, Kind: h.KDir, Perm: 0o755},
+			{Path: "m1/" + d + "/" + f, Kind: h.KFile, Perm: 0o644},
+			{Path: "m2", Kind: h.KDir, Perm: 0o755}, {Path: "m2/" + d, Kind: h.KSymlink, Target: tg},
+			{Path: "m2/" + g, Kind: h.KFile, Perm: 0o644, LinkTo: "m1/" + d + "/" + f},
+		}}
+		if rapid.Bool().Draw(t, "sl.linkfirst") {
+			// the link source itself is replaced by a symlink
+			src.Nodes[4] = h.Node{Path: "m2/" + d, Kind: h.KDir, Perm: 0o755}
+			src.Nodes = append(src.Nodes, h.Node{Path: "m2/" + d + "/" + f, Kind: h.KSymlink, Target: tg + "/" + f})
+		}
+		src.Normalize()
+		c.Src = src
+		c.SrcArg = rapid.SampledFrom([]string{"m*", "*", "m?"}).Draw(t, "sl.glob")
+		c.DstArg = rapid.SampledFrom([]string{"/", "new", "new/"}).Draw(t, "sl.dst")
+		c.Opts.Wildcards, c.Opts.DirContents = true, true
+		c.Opts.AlwaysReplace = rapid.IntRange(0, 3).Draw(t, "sl.replace") != 0
+		c.Include, c.Exclude = nil, nil
+		c.Follow = false
+		if rapid.Bool().Draw(t, "sl.emptydst") {
+			c.Dst = &h.Tree{}
+		}
+	}
 	// metadata options: applied with chmod/chown/utimes calls that must not follow links
 	if rapid.IntRange(0, 2).Draw(t, "modeopt") == 0 {
 		m := rapid.SampledFrom([]int{0o700, 0o644, 0o4755, 0}).Draw(t, "mode")
@@ -191,10 +224,15 @@ func c14Check(env *h.Env, c *c14Case) error {
 	// reached through an out-pointing directory link exists and could be removed or overwritten
 	mirror := append([]h.Node{}, c.Src.Nodes...)
 	for _, n := range c.Src.Nodes {
-		// also below outside/dir/<first component> and with the first component dropped
-		if i := strings.Index(n.Path, "/"); i > 0 {
+		// also with the leading components dropped, one after the other
+		for rest := n.Path; ; {
+			i := strings.Index(rest, "/")
+			if i < 0 {
+				break
+			}
+			rest = rest[i+1:]
 			m := n
-			m.Path = n.Path[i+1:]
+			m.Path = rest
 			mirror = append(mirror, m)
 		}
 	}
